@@ -33,6 +33,7 @@ def run(ck):
     ck.rule("R3", "construction canonicalises unconditionally", floor=4)
     ck.rule("R4", "every consumer of cmp_interval handles every class it can return", floor=3)
     ck.rule("R5", "equality, hull, length and integer membership read the canonical list as such", floor=4)
+    _adjacency_rules(ck, m, meths)
 
     # ---------------------------------------------------------------- R1
     for name, fn in sorted(meths.items()):
@@ -177,3 +178,105 @@ def run(ck):
     ok = any(isinstance(n, ast.Compare) and len(n.ops) == 2 and all(isinstance(x, ast.LtE) for x in n.ops) and norm(n.comparators[0]) == fn.args.args[1].arg
              for n in walk_body(fn))
     ck.ob("R5", "interval.__contains__:integer", ok, m.where(fn), "an integer belongs to the set iff low <= x <= high for some member")
+
+
+def _adjacency_rules(ck, m, meths):
+    """R6: adjacent intervals ([a, b] and [b+1, c]) are one set of integers and must fuse. cmp_interval encodes adjacency with
+    `stop + 1 == start` and disjointness with `start > stop + 1`; cannon_list may decide a fusion (a loop / branch that pops or
+    rewrites the last output interval) only on cmp_interval's verdict with both adjacency classes among the accepted ones, or on a
+    direct bound comparison that is at least as permissive as start <= stop + 1."""
+    from sa.astutil import linear, less_than
+    ck.rule("R6", "adjacent intervals fuse: the classifier's +1 tests and every fusion decision of cannon_list allow distance one", floor=5)
+    ci = m.func("cmp_interval")
+    tests = [n.test for n in walk_body(ci) if isinstance(n, ast.If)]
+    # name roles from the unpacking  a_start, a_stop = inter1
+    roles = {}
+    for n in walk_body(ci):
+        if isinstance(n, ast.Assign) and isinstance(n.targets[0], ast.Tuple) and len(n.targets[0].elts) == 2 and isinstance(n.value, ast.Name):
+            roles[norm(n.targets[0].elts[0])] = (n.value.id, "start")
+            roles[norm(n.targets[0].elts[1])] = (n.value.id, "stop")
+    ck.need(len(roles) == 4, "cmp_interval: unpacking of the two intervals not found")
+
+    def gap(cmp_):
+        """For a comparison between a start of one interval and a stop of the other: returns ('gt'|'eq', c) meaning
+        start - stop > c  /  start - stop == c ; None otherwise."""
+        if not (isinstance(cmp_, ast.Compare) and len(cmp_.ops) == 1):
+            return None
+        l, r = linear(cmp_.left), linear(cmp_.comparators[0])
+        terms = {}
+        for (t, c) in l[0]:
+            terms[t] = terms.get(t, 0) + c
+        for (t, c) in r[0]:
+            terms[t] = terms.get(t, 0) - c
+        terms = dict((t, c) for t, c in terms.items() if c)
+        const = l[1] - r[1]
+        if len(terms) != 2 or not all(t in roles for t in terms):
+            return None
+        (t1, c1), (t2, c2) = sorted(terms.items(), key=lambda kv: roles[kv[0]][1])      # start first
+        if roles[t1][1] != "start" or roles[t2][1] != "stop" or roles[t1][0] == roles[t2][0] or c1 != -c2:
+            return None
+        # c1*start + c2*stop + const  OP 0
+        op = type(cmp_.ops[0])
+        sign = c1
+        if op is ast.Eq:
+            return ("eq", -const * sign)
+        table = {ast.Gt: ("gt", 0), ast.GtE: ("gt", -1), ast.Lt: ("lt", 0), ast.LtE: ("lt", 1)}
+        if op not in table:
+            return None
+        kind, adj = table[op]
+        if sign < 0:
+            kind = "lt" if kind == "gt" else "gt"
+            adj = -adj
+        # sign*(start - stop) + const OP 0  ->  start - stop OP' -const*sign (integers: >= k is > k-1)
+        return (kind, -const * sign + (adj if kind == "gt" else adj))
+    eqs, gts = [], []
+    for t in tests:
+        for c in [x for x in walk_local(t) if isinstance(x, ast.Compare)]:
+            g = gap(c)
+            if g is None:
+                continue
+            (eqs if g[0] == "eq" else gts).append((g, c))
+    ck.ob("R6", "cmp_interval:adjacent-classes", len([1 for (g, _c) in eqs if g == ("eq", 1)]) >= 2, m.where(ci),
+          "the two adjacency classes must be decided by stop + 1 == start (found %s)" % [norm(c) for (_g, c) in eqs])
+    ck.ob("R6", "cmp_interval:disjoint-leaves-a-gap", len([1 for (g, _c) in gts if g == ("gt", 1)]) >= 2 and all(g == ("gt", 1) for (g, _c) in gts if g[0] == "gt"),
+          m.where(ci), "disjointness must be start > stop + 1 in both orders (found %s)" % [norm(c) for (_g, c) in gts])
+    # cannon_list
+    cl = meths["cannon_list"]
+    fus = []
+    for n in walk_body(cl):
+        if isinstance(n, (ast.While, ast.If)):
+            body_txt = [norm(x) for st in n.body for x in walk_local(st)]
+            merges = any(isinstance(x, ast.Call) and callee_attr(x) == "pop" and norm(x.func.value) == "out" for st in n.body for x in walk_local(st)) or \
+                any(isinstance(x, ast.Call) and dotted(x.func) in ("min", "max") for st in n.body for x in walk_local(st))
+            if merges:
+                fus.append(n)
+    ck.need(fus, "cannon_list: no fusion step found")
+    # only the innermost deciding tests (a branch whose body contains another fusion construct delegates the decision)
+    for n in fus:
+        t = n.test
+        calls = [x for x in walk_local(t) if isinstance(x, ast.Call) and callee_attr(x) == "cmp_interval"]
+        cmps = [x for x in walk_local(t) if isinstance(x, ast.Compare)]
+        ok, why = True, ""
+        direct = []
+        for c in cmps:
+            if any(isinstance(x, ast.Call) and callee_attr(x) == "cmp_interval" for x in walk_local(c)) or (isinstance(c.left, ast.Name) and c.left.id == "rez"):
+                # verdict test: the accepted classes must include both adjacency classes when JOIN is accepted
+                names = set(norm(e) for comp in c.comparators for e in (comp.elts if isinstance(comp, (ast.List, ast.Tuple, ast.Set)) else [comp]))
+                if "INT_JOIN" in names and not ("INT_JOIN_AB" in names and "INT_JOIN_BA" in names):
+                    ok, why = False, "overlap is accepted for fusion but the adjacency classes are not (%s)" % sorted(names)
+            elif isinstance(c.ops[0], (ast.Lt, ast.LtE, ast.Gt, ast.GtE)):
+                direct.append(c)
+        for c in direct:
+            lt = less_than(c, True)
+            if lt is None:
+                continue
+            a, b, strict = lt          # a < b  or a <= b
+            la, lb = linear(a), linear(b)
+            # a fusion guard `start (<|<=) stop + k`: must hold when start == stop + 1
+            k = lb[1] - la[1]
+            if len(la[0]) == 1 and len(lb[0]) == 1:
+                holds_at_adjacent = (1 < k) if strict else (1 <= k)
+                if not holds_at_adjacent:
+                    ok, why = False, "`%s` is false for an interval starting right after the other one ends (start == stop + 1): adjacent " \
+                                     "intervals stay split and two lists denote the same integers" % norm(c)
+        ck.ob("R6", "cannon_list:fusion-guard:%s" % norm(t)[:40], ok, m.where(n), why)
